@@ -1,17 +1,92 @@
 /-
-  C03 — property theorems.
+  C03 — property theorems: a Stream behaves as a lazy sequence under any history.
+  Only statements of the property, non-vacuity examples and the audit live here; the
+  lemmas are in `ALV.Lemmas.C03` (next refines head/tail), `C03Step` (relation, tee hubs),
+  `C03Refine` (one lemma per method).
+
+  Reading guide.  `run f st ops` is the heap-of-iterators model (fuel `f`: `none` = Python
+  would not terminate); `specRun sp ops` is the immutable-list specification.  `den E it`
+  is the list an iterator still has to yield; `Rel E st sp` says that every model object
+  denotes the specification object with the same pool index.
 -/
-import ALV.Model.C03
-import ALV.Spec.C03
+import ALV.Lemmas.C03Refine
 import ALV.Common.Audit
 
 namespace ALV.Props.C03
 open ALV.C03
 variable {α : Type}
 
-/-- **C03.3b** `thub` of a non-iterable is that object: no state change, the object itself is returned. -/
+/-- **C03.1 (step)** every method, on every reachable state, does what the list model does:
+same return value / exception, and the resulting states are again related.  All counts
+(`None`, negative, 0, within, beyond, float, ±inf, nan), all element functions, Streams and
+StreamTeeHubs alike. -/
+theorem step_refines {E : List (List α)} {st : St α} {sp : SPool α} (R : Rel E st sp) (op : Op α)
+    (hop : op.Fin) :
+    ∃ E' F st' sp' o, (∀ f, F ≤ f → step f st op = some (st', o)) ∧ specStep sp op = some (sp', o) ∧
+      Rel E' st' sp' := by
+  obtain ⟨E', F, st', sp', o, S⟩ := ALV.C03.step_refines R op hop
+  exact ⟨E', F, st', sp', o, S.run, S.spec, S.rel⟩
+
+theorem rel_empty : Rel ([] : List (List α)) St.empty [] :=
+  ⟨⟨rfl, fun k hub hk => by simp [St.empty] at hk⟩, fun i => by simp [St.empty]; exact trivial⟩
+
+theorem run_refines_from {E : List (List α)} {st : St α} {sp : SPool α} (R : Rel E st sp)
+    (ops : List (Op α)) (hops : ∀ op, op ∈ ops → op.Fin) :
+    ∃ F, ∀ f, F ≤ f → run f st ops = specRun sp ops := by
+  induction ops generalizing E st sp with
+  | nil => exact ⟨0, fun f _ => rfl⟩
+  | cons op ops ih =>
+    obtain ⟨E', F1, st', sp', o, S⟩ := ALV.C03.step_refines R op (hops op (by simp))
+    obtain ⟨F2, h2⟩ := ih S.rel (fun x hx => hops x (by simp [hx]))
+    refine ⟨max F1 F2, fun f hf => ?_⟩
+    have r1 := S.run f (Nat.le_trans (Nat.le_max_left _ _) hf)
+    have r2 := h2 f (Nat.le_trans (Nat.le_max_right _ _) hf)
+    simp [run, specRun, r1, S.spec, r2]
+
+/-- **C03.1 (histories)** for every history of operations over finite sources, of any length,
+starting from nothing: with enough fuel the model terminates at every step and the whole
+list of observations (return values and exceptions) is the one of the list model. -/
+theorem run_refines (ops : List (Op α)) (hops : ∀ op, op ∈ ops → op.Fin) :
+    ∃ F, ∀ f, F ≤ f → run f St.empty ops = specRun [] ops :=
+  run_refines_from rel_empty ops hops
+
+/-- **C03.4a** `take(n)` with `n` at least the number of remaining items returns all of them,
+without error, and leaves the Stream empty (the clause that defect D1 breaks in /repo). -/
+theorem take_short {E : List (List α)} {h : Heap α} {it : It α} (hH : HeapOK E h) (hO : Ok h it)
+    (n : Nat) (hn : (den E it).length ≤ n) :
+    ∃ F h' it', (∀ f, F ≤ f → takeIt f h it (.int n) = some (h', it', .items (den E it))) ∧
+      den E it' = [] := by
+  obtain ⟨F, h', it', run, R⟩ := takeN_ok (n : Nat) h it hH hO
+  refine ⟨F, h', it', fun f hf => ?_, by rw [R.den']; exact List.drop_eq_nil_of_le hn⟩
+  simp [takeIt, takeMode, run f hf, List.take_of_length_le hn]
+
+/-- **C03.4b** `take()` (n = None) returns the next item, or StopIteration at the end. -/
+theorem take_none {E : List (List α)} {h : Heap α} {it : It α} (hH : HeapOK E h) (hO : Ok h it) :
+    ∃ F h' it', (∀ f, F ≤ f → takeIt f h it .none = some (h', it',
+        match den E it with | [] => .err "StopIteration" | v :: _ => .item v)) ∧
+      den E it' = (den E it).tail := by
+  obtain ⟨F, h', it', G⟩ := next_ok hH hO
+  refine ⟨F, h', it', fun f hf => ?_, G.den'⟩
+  have := next_mono_le hf G.run
+  cases hd : den E it <;> simp [takeIt, takeMode, this, hd]
+
+/-- **C03.3b** `thub` of a non-iterable is that object: nothing is created, the object comes back. -/
 theorem thub_noniter (f : Nat) (st : St α) (v : α) (n : Nat) :
-    step (f + 1) st (.thub (.const v) n) = some (st, .const v) := rfl
+    step f st (.thub (.const v) n) = some (st, .const v) := rfl
+
+/-- non-vacuity: a concrete history with a copy consumed in the other order, a short take -/
+example : run 10 (St.empty : St Int)
+    [.new (.list [1, 2, 3]), .copy 0, .take 0 (.int 2), .drain 1, .take 0 (.int 5), .take 0 .none]
+    = [some (.new 0), some (.new 1), some (.items [1, 2]), some (.items [1, 2, 3]), some (.items [3]),
+       some (.err "StopIteration")] := by decide
+example : specRun ([] : SPool Int)
+    [.new (.list [1, 2, 3]), .copy 0, .take 0 (.int 2), .drain 1, .take 0 (.int 5), .take 0 .none]
+    = [some (.new 0), some (.new 1), some (.items [1, 2]), some (.items [1, 2, 3]), some (.items [3]),
+       some (.err "StopIteration")] := by decide
+example : (Op.new (.list [1, 2, 3]) : Op Int).Fin ∧ (Op.thub (.obj 0) 2 : Op Int).Fin := ⟨trivial, trivial⟩
+/-- the counts: `rint` rounds x.5 away from zero, `round` to even -/
+example : takeMode (.flt (5/2)) = .n 3 ∧ roundHalfEven (5/2) = 2 ∧ roundHalfEven (7/2) = 4
+    ∧ takeMode .nan = .n 0 ∧ takeMode (.int (-2)) = .n 0 ∧ takeMode .ninf = .n 0 := by decide +kernel
 
 end ALV.Props.C03
 
